@@ -20,6 +20,8 @@ CORPORA = {
                            family="stream", trace="StreamTrace.tla", tracecfg="StreamTrace.cfg"),
     "stream_chunks": dict(gen="MCStream.tla", cfg={"quick": "stream_chunks_quick.cfg", "thorough": "stream_chunks_thorough.cfg"},
                           family="stream", trace="StreamTrace.tla", tracecfg="StreamTrace.cfg"),
+    "timeout": dict(gen="MCTimeout.tla", cfg={"quick": "timeout_quick.cfg", "thorough": "timeout_thorough.cfg"},
+                    family="timeout", trace="TimeoutTrace.tla", tracecfg="TimeoutTrace.cfg"),
     "stream_headers": dict(gen="MCStream.tla", cfg={"quick": "stream_headers_quick.cfg", "thorough": "stream_headers_thorough.cfg"},
                            family="stream", trace="StreamTrace.tla", tracecfg="StreamTrace.cfg"),
 }
@@ -37,6 +39,7 @@ PROPS = {
                 design=[("MCFraming.tla", "framing_%s_fixed.cfg" % p) for p in ("R1", "R2", "R3", "R4", "R5", "R5e")]),
     "C09": dict(corpora=["stream_faults"], prefix="C09."),
     "C11": dict(corpora=["stream_hostile", "stream_faults", "stream_errors", "stream_reject"], prefix="C11."),
+    "C12": dict(corpora=["timeout"], prefix="C12."),
     "C13": dict(corpora=["stream_matrix", "stream_reject"], prefix="C13."),
     "C18": dict(corpora=["stream_reject", "stream_matrix", "stream_faults"], prefix="C18."),
 }
@@ -53,8 +56,14 @@ def tag_property(tag):
     return tag.split(".", 1)[0]
 
 
+def generic_class(o):
+    return json.dumps({k: v for k, v in o.items() if k not in ("sid", "seed")}, sort_keys=True)
+
+
 def scenario_class(o):
     """Abstract class of a replayed scenario, for counting distinct non-trivial cases (not a verdict)."""
+    if "scn" not in o:
+        return generic_class(o)
     s = o.get("scn") or {}
     cl, hd = s.get("cl", {}), s.get("hd", {})
     d = o["disp"][0] if o.get("disp") else None
@@ -70,6 +79,8 @@ def scenario_class(o):
 
 def nontrivial(o):
     """A case is non-trivial when the transcoder had to convert something (not a pure pass-through)."""
+    if "disp" not in o:
+        return not o.get("same", False)
     d = o["disp"][0] if o.get("disp") else None
     return d is None or not d.get("same", False)
 
@@ -120,6 +131,7 @@ def check(pid, tier, seed, work, t0):
     kf_seen = collections.OrderedDict()
     per_corpus = {}
     skipped = 0
+    by_sid = {}
     design = {}
     for module, cfg in prop.get("design", []):
         # E1 only: exhaustive check of a byte-grain / interleaving model that has no scenarios to emit
@@ -132,6 +144,8 @@ def check(pid, tier, seed, work, t0):
         design[cfg] = dict(states=g["distinct"], transitions=g["generated"])
     for name in prop["corpora"]:
         r = run_corpus(name, tier, seed, work, binary)
+        for sc in r["scns"]:
+            by_sid[(name, sc["sid"])] = sc
         states += r["gen"]["distinct"]
         transitions += r["gen"]["generated"]
         traces += r["nlines"]
@@ -148,7 +162,10 @@ def check(pid, tier, seed, work, t0):
                 if o["sid"] in r["bad"]:
                     obs_by_sid[o["sid"]] = o
                 if len(samples) < 3 and nontrivial(o) and evaluations % 97 == 1:
-                    samples.append(dict(scenario=o["scn"], observed=dict(dispatch=o["disp"], client=o["cl"], ret=o["ret"])))
+                    if "scn" in o:
+                        samples.append(dict(scenario=o["scn"], observed=dict(dispatch=o["disp"], client=o["cl"], ret=o["ret"])))
+                    else:
+                        samples.append(o)
         nviol = 0
         for sid, b in r["bad"].items():
             mine = [t for t in b["v"] if t.startswith(prop["prefix"])]
@@ -173,8 +190,9 @@ def check(pid, tier, seed, work, t0):
             continue
         print("KNOWN-FINDING: property=%s %s (%d traces, e.g. %s): %s" % (pid, kid, len(sids), sids[0], what))
     for name, sid, tags, o in violations[:25]:
+        scn_of = (o or {}).get("scn") or by_sid.get((name, sid))
         path = vlib.save_replay(pid, sid, dict(property=pid, corpus=name, sid=sid, tags=tags, seed=seed,
-                                               scenario=(o or {}).get("scn"), observed={k: (o or {}).get(k) for k in ("disp", "cl", "ret", "note")}))
+                                               scenario=scn_of, observed={k: v for k, v in (o or {}).items() if k != "scn"}))
         print("VIOLATION property=%s replay=%s tags=%s" % (pid, path, ",".join(tags)))
         rc = 1
     if len(violations) > 25:
@@ -186,6 +204,10 @@ def check(pid, tier, seed, work, t0):
         for name, sid, tags, o in violations:
             s = (o or {}).get("scn") or {}
             d = (o or {}).get("disp") or []
+            if o is not None and "scn" not in o:
+                for t in tags:
+                    hist[(t,) + tuple(str(o.get(k))[:40] for k in sorted(o) if k not in ("sid", "ev"))[:8]] += 1
+                continue
             for t in tags:
                 hist[(t, s.get("cl", {}).get("form"), d[0]["form"] if d else "-", s.get("cl", {}).get("rej", ""),
                       s.get("hd", {}).get("end", {}).get("how"), s.get("hd", {}).get("fault", ""), s.get("cl", {}).get("cut", ""),
